@@ -51,6 +51,7 @@ def field_valid(n, form, ranges, ty, K, stride) -> bool:
             return False
     if form == 'bit' and len(ranges) == 1 and ranges[0][0] != ranges[0][1]:
         return False
+    # form 'list1' (a range list with one member) is one contiguous range
     nbits = sum(hi - lo + 1 for lo, hi in ranges)
     tw = type_width(ty)
     if tw is None:
